@@ -241,13 +241,14 @@ def walk_tree(
     # key_types is not helpful, as it is artificially added by skops to
     # circumvent the fact that json only allows keys to be strings. It is not
     # useful to the user and adds a lot of noise, thus skip key_types.
-    if node_name == "key_types":
-        if isinstance(node, ListNode) and node.is_safe():
-            return
-        raise ValueError(
-            "An invalid 'key_types' node was encountered, please report the issue "
-            "here: https://github.com/skops-dev/skops/issues"
-        )
+    if node_name == "key_types" and isinstance(node, ListNode) and node.is_safe():
+        return
+
+    # children that are not nodes (e.g. the bounds of a slice, the name of a
+    # bound method, a missing attribute dict) carry no type and are not shown,
+    # mirroring what Node.get_unsafe_set skips
+    if node is None or isinstance(node, (str, int, float, io.BytesIO)):
+        return
 
     if isinstance(node, dict):
         num_nodes = len(node)
